@@ -171,23 +171,24 @@ def expectedFrom : Nat → List Int → List PRec → List Rec
 
 def expected (times : List Int) (recs : List PRec) : List Rec := expectedFrom 0 times recs
 
-theorem map_recOfV2_specRecsV2 (f : FrameV2) (hb : f.baseOffset = 0) (now : Int) (i : Nat) (rs : List PRec) :
+theorem map_recOfV2_specRecsV2 (f : FrameV2) (hb : f.baseOffset = 0) (hl : logAppend f.attributes = false) (now : Int)
+    (i : Nat) (rs : List PRec) :
     (specRecsV2 now f.firstTs i rs).map (recOfV2 f) = expectedFrom i (rs.map (effTime now)) rs := by
   induction rs generalizing i with
   | nil => rfl
   | cons r rs ih =>
     simp only [specRecsV2, List.map_cons, expectedFrom, ih]
-    simp [recOfV2, specRec, hb]
+    simp [recOfV2, recOfV2c, stamp, hl, specRec, hb]
     omega
 
-theorem map_recOfV2_specRecsLegacy (f : FrameV2) (hb : f.baseOffset = 0) (base : Int)
+theorem map_recOfV2_specRecsLegacy (f : FrameV2) (hb : f.baseOffset = 0) (hl : logAppend f.attributes = false) (base : Int)
     (hf : f.firstTs = timestampOf base) (i : Nat) (rs : List PRec) :
     (specRecsLegacy tsDelta base i rs).map (recOfV2 f) = expectedFrom i (rs.map (fun r => timestampOf r.time)) rs := by
   induction rs generalizing i with
   | nil => rfl
   | cons r rs ih =>
     simp only [specRecsLegacy, List.map_cons, expectedFrom, ih]
-    simp [recOfV2, specRec, hb, hf, tsDelta]
+    simp [recOfV2, recOfV2c, stamp, hl, specRec, hb, hf, tsDelta]
     omega
 
 /-! ### protocol writeToVersion2 -/
@@ -217,7 +218,8 @@ theorem flatten_plain_batch (c : Crcs) (dec : Int → Bytes → Option Bytes) (f
   simp [flattenEntry, hcodec, hp, hc, decodeRecs_encRecs]
 
 theorem writeV2_spec (crc : Bytes → Nat) (hcrc : ∀ b, crc b < M32) (attrs now : Int) (recs : List PRec)
-    (hne : recs ≠ []) (hwf : (frameOfV2 attrs now recs).WF) (hcodec : codecOf attrs = 0) :
+    (hne : recs ≠ []) (hwf : (frameOfV2 attrs now recs).WF) (hcodec : codecOf attrs = 0)
+    (hlog : logAppend attrs = false) :
     ∃ bytes f, writeV2 crc attrs now recs = some bytes ∧
       readFrame crc bytes = some (f, []) ∧ f.baseOffset = 0 ∧ f.count = recs.length ∧
       f.lastOffsetDelta = (recs.length : Int) - 1 ∧
@@ -231,7 +233,7 @@ theorem writeV2_spec (crc : Bytes → Nat) (hcrc : ∀ b, crc b < M32) (attrs no
     have hc : (frameOfV2 attrs now recs).count = ((specRecsV2 now (firstTime now recs) 0 recs).length : Int) := by
       rw [specRecsV2_length]; rfl
     rw [flatten_plain_batch _ _ _ _ hcodec hp hc]
-    have := map_recOfV2_specRecsV2 (frameOfV2 attrs now recs) rfl now 0 recs
+    have := map_recOfV2_specRecsV2 (frameOfV2 attrs now recs) rfl hlog now 0 recs
     simp only [frameOfV2] at this ⊢
     rw [this]; rfl
 
@@ -281,7 +283,7 @@ theorem legacyBatch_spec (crc : Bytes → Nat) (hcrc : ∀ b, crc b < M32) (recs
       rw [specRecsLegacy_length]; rfl
     have hcodec : codecOf (legacyFrame recs).attributes = 0 := by simp [legacyFrame, codecOf]
     rw [flatten_plain_batch _ _ _ _ hcodec hp hc]
-    have := map_recOfV2_specRecsLegacy (legacyFrame recs) rfl (baseTime recs) rfl 0 recs
+    have := map_recOfV2_specRecsLegacy (legacyFrame recs) rfl (show logAppend 0 = false by decide) (baseTime recs) rfl 0 recs
     rw [this]
     rfl
 
@@ -312,5 +314,176 @@ theorem writeV1_spec (c : Crcs) (h1 : ∀ b, c.ieee b < M32) (h2 : ∀ b, c.cast
   simp only [List.mem_map] at he
   obtain ⟨m, hm, rfl⟩ := he
   exact hwf m hm
+
+end KV.Model.RecordWriter
+
+/-! ### compressed writers (abstract compressor `comp`, decompressor `dec` with `dec (comp p) = p`) -/
+
+namespace KV.Model.RecordWriter
+open KV KV.RW KV.Spec.RB
+
+def frameOfV2C (comp : Bytes → Bytes) (attrs now : Int) (recs : List PRec) : FrameV2 :=
+  { frameOfV2 attrs now recs with payload := comp (recordsV2 now (firstTime now recs) 0 recs) }
+
+theorem writeV2C_eq (crc : Bytes → Nat) (comp : Bytes → Bytes) (attrs now : Int) (recs : List PRec) (hne : recs ≠ []) :
+    writeV2C crc comp attrs now recs = some (encFrame crc (frameOfV2C comp attrs now recs)) := by
+  cases recs with
+  | nil => exact absurd rfl hne
+  | cons r0 rs =>
+    simp only [writeV2C, encFrame, frameOfV2C, frameOfV2, frameBody, firstTime]
+    congr 3
+    simp
+    congr 1
+    omega
+
+theorem flatten_compressed_batch (c : Crcs) (dec : Int → Bytes → Option Bytes) (f : FrameV2) (xs : List RecV2)
+    (hcodec : codecOf f.attributes ≠ 0) (hp : dec (codecOf f.attributes) f.payload = some (encRecs xs))
+    (hc : f.count = (xs.length : Int)) :
+    flattenEntry c dec (.batch f) = some (isControl f.attributes, xs.map (recOfV2 f)) := by
+  simp [flattenEntry, hcodec, hp, hc, decodeRecs_encRecs]
+
+/-- protocol `writeToVersion2` with compression: one batch the reference decoder accepts; decompressing its payload
+and decoding gives exactly the given records (offsets 0..n-1, ms timestamps) -/
+theorem writeV2C_spec (crc : Bytes → Nat) (hcrc : ∀ b, crc b < M32) (comp : Bytes → Bytes)
+    (dec : Int → Bytes → Option Bytes) (attrs now : Int) (recs : List PRec)
+    (hne : recs ≠ []) (hwf : (frameOfV2C comp attrs now recs).WF) (hcodec : codecOf attrs ≠ 0)
+    (hlog : logAppend attrs = false) (hdec : ∀ p, dec (codecOf attrs) (comp p) = some p) :
+    ∃ bytes f, writeV2C crc comp attrs now recs = some bytes ∧
+      readFrame crc bytes = some (f, []) ∧ f.baseOffset = 0 ∧ f.count = recs.length ∧
+      f.lastOffsetDelta = (recs.length : Int) - 1 ∧
+      flattenEntry ⟨crc, crc⟩ dec (.batch f) = some (isControl attrs, expected (recs.map (effTime now)) recs) := by
+  refine ⟨_, frameOfV2C comp attrs now recs, writeV2C_eq crc comp attrs now recs hne, ?_, rfl, rfl, rfl, ?_⟩
+  · have := readFrame_encFrame crc hcrc _ hwf []
+    simpa using this
+  · have hp : dec (codecOf (frameOfV2C comp attrs now recs).attributes) (frameOfV2C comp attrs now recs).payload
+        = some (encRecs (specRecsV2 now (firstTime now recs) 0 recs)) := by
+      simp only [frameOfV2C, frameOfV2]
+      rw [hdec, recordsV2_eq]
+    have hc : (frameOfV2C comp attrs now recs).count = ((specRecsV2 now (firstTime now recs) 0 recs).length : Int) := by
+      rw [specRecsV2_length]; rfl
+    rw [flatten_compressed_batch _ _ _ _ hcodec hp hc]
+    have := map_recOfV2_specRecsV2 (frameOfV2C comp attrs now recs) rfl hlog now 0 recs
+    simp only [frameOfV2C, frameOfV2] at this ⊢
+    rw [this]; rfl
+
+def legacyFrameC (comp : Bytes → Bytes) (code : Int) (recs : List PRec) : FrameV2 :=
+  { legacyFrame recs with attributes := code, payload := comp (legacyRecordsWith tsDelta (baseTime recs) 0 recs) }
+
+theorem legacyBatchC_eq (crc : Bytes → Nat) (comp : Bytes → Bytes) (code : Int) (recs : List PRec) (hne : recs ≠ []) :
+    legacyBatchC crc comp code recs = encFrame crc (legacyFrameC comp code recs) := by
+  cases recs with
+  | nil => exact absurd rfl hne
+  | cons r0 rs =>
+    simp only [legacyBatchC, encFrame, legacyFrameC, legacyFrame, frameBody, baseTime]
+    congr 2
+    simp
+    congr 1
+    omega
+
+/-- Conn `WriteCompressedMessages` (produce v3/v7): `compressRecordBatch` + `writeRecordBatch` -/
+theorem legacyBatchC_spec (crc : Bytes → Nat) (hcrc : ∀ b, crc b < M32) (comp : Bytes → Bytes)
+    (dec : Int → Bytes → Option Bytes) (code : Int) (recs : List PRec)
+    (hne : recs ≠ []) (hwf : (legacyFrameC comp code recs).WF) (hcodec : codecOf code ≠ 0)
+    (hlog : logAppend code = false) (hdec : ∀ p, dec (codecOf code) (comp p) = some p) :
+    ∃ f, readFrame crc (legacyBatchC crc comp code recs) = some (f, []) ∧ f.baseOffset = 0 ∧ f.count = recs.length ∧
+      f.lastOffsetDelta = (recs.length : Int) - 1 ∧
+      flattenEntry ⟨crc, crc⟩ dec (.batch f) =
+        some (isControl code, expected (recs.map (fun r => timestampOf r.time)) recs) := by
+  refine ⟨legacyFrameC comp code recs, ?_, rfl, rfl, rfl, ?_⟩
+  · rw [legacyBatchC_eq crc comp code recs hne]
+    have := readFrame_encFrame crc hcrc _ hwf []
+    simpa using this
+  · have hp : dec (codecOf (legacyFrameC comp code recs).attributes) (legacyFrameC comp code recs).payload
+        = some (encRecs (specRecsLegacy tsDelta (baseTime recs) 0 recs)) := by
+      simp only [legacyFrameC, legacyFrame]
+      rw [hdec, legacyRecordsWith_eq]
+    have hc : (legacyFrameC comp code recs).count = ((specRecsLegacy tsDelta (baseTime recs) 0 recs).length : Int) := by
+      rw [specRecsLegacy_length]; rfl
+    rw [flatten_compressed_batch _ _ _ _ hcodec hp hc]
+    have := map_recOfV2_specRecsLegacy (legacyFrameC comp code recs) rfl hlog (baseTime recs) rfl 0 recs
+    rw [this]
+    rfl
+
+/-- protocol `writeToVersion1` with compression: one wrapper message (offset 0, the batch attributes, timestamp
+`now`, null key) whose value is the compressed uncompressed-set -/
+theorem writeV1C_eq (crc : Bytes → Nat) (comp : Bytes → Bytes) (attrs now : Int) (recs : List PRec) :
+    writeV1C crc comp attrs now recs =
+      encMsg crc ⟨0, 1, attrs, now, none, some (comp (writeV1 crc (attrs - attrs % 8) now 0 recs))⟩ := by
+  simp [writeV1C, messageV1_eq, effTime]
+
+/-- … and that value decompresses to a message set that decodes to the given records with relative offsets 0..n-1 -/
+theorem writeV1C_spec (c : Crcs) (h1 : ∀ b, c.ieee b < M32) (h2 : ∀ b, c.castagnoli b < M32) (comp : Bytes → Bytes)
+    (attrs now : Int) (recs : List PRec)
+    (hw : (⟨0, 1, attrs, now, none, some (comp (writeV1 c.ieee (attrs - attrs % 8) now 0 recs))⟩ : Msg).WF)
+    (hwf : ∀ m ∈ msgsOfV1 (attrs - attrs % 8) now 0 recs, m.WF) :
+    decodeSet c (writeV1C c.ieee comp attrs now recs) =
+      some [.msg ⟨0, 1, attrs, now, none, some (comp (writeV1 c.ieee (attrs - attrs % 8) now 0 recs))⟩] ∧
+    decodeSet c (writeV1 c.ieee (attrs - attrs % 8) now 0 recs) =
+      some ((msgsOfV1 (attrs - attrs % 8) now 0 recs).map Entry.msg) := by
+  refine ⟨?_, writeV1_spec c h1 h2 _ now recs hwf⟩
+  rw [writeV1C_eq]
+  have := decodeSet_encSet c h1 h2 [.msg ⟨0, 1, attrs, now, none, some (comp (writeV1 c.ieee (attrs - attrs % 8) now 0 recs))⟩]
+    (fun e he => by simp only [List.mem_singleton] at he; subst he; exact hw)
+  simpa [encSet, encEntry] using this
+
+end KV.Model.RecordWriter
+
+namespace KV.Model.RecordWriter
+open KV KV.RW KV.Spec.RB
+
+theorem nbytes_length (b : Option Bytes) : (nbytes b).length = 4 + optLen b := by
+  cases b <;> simp [nbytes, optLen]
+
+/-- Conn `writeMessage`: `messageSize` is the real size, the bytes are the reference encoding -/
+theorem legacyMessage_eq (crc : Bytes → Nat) (offset attrs : Int) (r : PRec) :
+    legacyMessage crc offset attrs r = encMsg crc ⟨offset, 1, attrs, timestampOf r.time, r.key, r.value⟩ := by
+  simp only [legacyMessage, encMsg, msgBody, writeNullBytes_eq]
+  simp only [show ((1 : Int) = 0) = False from by simp, if_false, List.length_append, i8_length, i64_length, nbytes_length]
+  congr 3
+  omega
+
+def legacyMsgs (attrs : Int) (offs : Nat → Int) : Nat → List PRec → List Msg
+  | _, [] => []
+  | i, r :: rs => ⟨offs i, 1, attrs, timestampOf r.time, r.key, r.value⟩ :: legacyMsgs attrs offs (i + 1) rs
+
+theorem legacyMessageSet_eq (c : Crcs) (rs : List PRec) (i : Nat) :
+    legacyMessageSet c.ieee rs = encSet c ((legacyMsgs 0 (fun _ => 0) i rs).map Entry.msg) := by
+  induction rs generalizing i with
+  | nil => rfl
+  | cons r rs ih => simp [legacyMessageSet, legacyMsgs, encSet, encEntry, legacyMessage_eq, ih (i + 1)]
+
+theorem legacyInner_eq (c : Crcs) (rs : List PRec) (i : Nat) :
+    legacyInner c.ieee i rs = encSet c ((legacyMsgs 0 (fun j => (j : Int)) i rs).map Entry.msg) := by
+  induction rs generalizing i with
+  | nil => rfl
+  | cons r rs ih => simp [legacyInner, legacyMsgs, encSet, encEntry, legacyMessage_eq, ih (i + 1)]
+
+theorem legacyWrapper_eq (crc : Bytes → Nat) (comp : Bytes → Bytes) (code : Int) (recs : List PRec) :
+    legacyWrapper crc comp code recs = encMsg crc ⟨0, 1, code, 0, none, some (comp (legacyInner crc 0 recs))⟩ := by
+  simp only [legacyWrapper, encMsg, msgBody, writeNullBytes_eq]
+  simp only [show ((1 : Int) = 0) = False from by simp, if_false, List.length_append, i8_length, i64_length, nbytes_length,
+    optLen]
+  congr 3
+  omega
+
+/-- Conn produce v2 (uncompressed and compressed): the message set / the wrapper's decompressed value decode to the
+given messages (ms timestamps; offsets as written: `Message.Offset` = 0 uncompressed, 0..n-1 inside a wrapper) -/
+theorem legacy_v1_write_spec (c : Crcs) (h1 : ∀ b, c.ieee b < M32) (h2 : ∀ b, c.castagnoli b < M32) (recs : List PRec)
+    (hwf0 : ∀ m ∈ legacyMsgs 0 (fun _ => 0) 0 recs, m.WF) (hwf1 : ∀ m ∈ legacyMsgs 0 (fun j => (j : Int)) 0 recs, m.WF) :
+    decodeSet c (legacyMessageSet c.ieee recs) = some ((legacyMsgs 0 (fun _ => 0) 0 recs).map Entry.msg) ∧
+    decodeSet c (legacyInner c.ieee 0 recs) = some ((legacyMsgs 0 (fun j => (j : Int)) 0 recs).map Entry.msg) := by
+  constructor
+  · rw [legacyMessageSet_eq c recs 0]
+    apply decodeSet_encSet c h1 h2
+    intro e he
+    simp only [List.mem_map] at he
+    obtain ⟨m, hm, rfl⟩ := he
+    exact hwf0 m hm
+  · rw [legacyInner_eq c recs 0]
+    apply decodeSet_encSet c h1 h2
+    intro e he
+    simp only [List.mem_map] at he
+    obtain ⟨m, hm, rfl⟩ := he
+    exact hwf1 m hm
 
 end KV.Model.RecordWriter
